@@ -705,6 +705,71 @@ macro_rules! chain_row {
                         Err(_) => ctx.discard("foreign:C13/decode_error"),
                     }
                 }
+                // ---- oracle 4: the precision is raised between symbols ------------------------
+                // (raising the precision of a decoder writes to the remainders only; the quantiles still come from
+                // the compressed bits alone, so replacing one model must stay local across the change)
+                if src.ratio(1, 2) {
+                    let mut order: Vec<u8> = (0..PRECS.len() as u8).collect();
+                    order.sort_by_key(|&k| PRECS[k as usize]);
+                    let start_rank = src.below_usize(order.len());
+                    let m = src.below_usize(if ctx.tier == 0 { 24 } else { 120 });
+                    let mut rank = start_rank;
+                    let mut steps: Vec<(Option<u8>, Tab)> = Vec::new();
+                    let mut sel_at: Vec<u8> = Vec::new();
+                    let mut raised = false;
+                    for _ in 0..m {
+                        let up = if rank + 1 < order.len() && src.ratio(1, 4) {
+                            rank += 1 + src.below_usize(order.len() - rank - 1);
+                            raised = true;
+                            Some(order[rank])
+                        } else {
+                            None
+                        };
+                        let sel_now = order[rank];
+                        sel_at.push(sel_now);
+                        steps.push((up, gen_tab(src, PRECS[sel_now as usize], sel_now, 8)));
+                    }
+                    let first_sel = order[start_rank];
+                    let run4 = |steps: &[(Option<u8>, Tab)]| -> Result<(Vec<usize>, Option<usize>), String> {
+                        let mut c = match C::from_data(data.to_vec(), binary, first_sel) {
+                            Ok(c) => c,
+                            Err(_) => return Ok((Vec::new(), Some(0))),
+                        };
+                        let mut syms = Vec::new();
+                        for (i, (up, t)) in steps.iter().enumerate() {
+                            if let Some(to) = up {
+                                c = c.change(*to)?;
+                            }
+                            match c.decode(t) {
+                                Ok(s) => syms.push(s),
+                                Err(DecErr::OutOfData) => return Ok((syms, Some(i))),
+                                Err(DecErr::Other(e)) => return Err(e),
+                            }
+                        }
+                        Ok((syms, None))
+                    };
+                    let (s4, o4) = match run4(&steps) {
+                        Ok(x) => x,
+                        Err(_) => { ctx.discard("foreign:C13/decode_error"); return Ok(()); }
+                    };
+                    if !s4.is_empty() {
+                        let j = src.below_usize(s4.len());
+                        let mut steps2 = steps.clone();
+                        steps2[j].1 = gen_tab(src, PRECS[sel_at[j] as usize], sel_at[j], 8);
+                        let (s5, o5) = match run4(&steps2) {
+                            Ok(x) => x,
+                            Err(_) => { ctx.discard("foreign:C13/decode_error"); return Ok(()); }
+                        };
+                        let sched: Vec<Option<u32>> = steps.iter().map(|(u, _)| u.map(|k| PRECS[k as usize])).collect();
+                        vcheck!(o5 == o4, "C14/model_change_moved_out_of_data", "precision raised between symbols (start P={}, schedule {:?}): replacing model {} moved the out-of-data index from {:?} to {:?}", PRECS[first_sel as usize], sched, j, o4, o5);
+                        for i in 0..s4.len() {
+                            if i != j {
+                                vcheck!(s5.get(i) == Some(&s4[i]), "C14/model_change_not_local", "precision raised between symbols (start P={}, schedule {:?}): replacing the model at position {} changed symbol {} from {} to {:?}", PRECS[first_sel as usize], sched, j, i, s4[i], s5.get(i));
+                            }
+                        }
+                        ctx.label_if(raised, "model_replaced_with_precision_raised_between_symbols");
+                    }
+                }
                 Ok(())
             }
         }
